@@ -63,6 +63,21 @@ func checkDepCase(c DepCase, r *Recorder) error {
 	if err := compareDepToAST(&viaControl, c.AST); err != nil {
 		return errf("UnmarshalControl(%q): %v", c.Text, err)
 	}
+	// one variable decoded into repeatedly: the new value replaces the old one completely, and a
+	// copy kept of the earlier value is not rewritten by the later call
+	keep := viaControl
+	if err := viaControl.UnmarshalControl("zzz-other (>= 9) [sparc] <x> | ${other:Var}, zzz-two"); err != nil {
+		return errf("UnmarshalControl of a second field into the same variable failed: %v", err)
+	}
+	if err := compareDepToAST(&keep, c.AST); err != nil {
+		return errf("a copy kept of UnmarshalControl(%q) changed when the same variable was unmarshalled into again: %v", c.Text, err)
+	}
+	if err := viaControl.UnmarshalControl(c.Text); err != nil {
+		return errf("UnmarshalControl(%q) into a used variable: %v", c.Text, err)
+	}
+	if err := compareDepToAST(&viaControl, c.AST); err != nil {
+		return errf("UnmarshalControl(%q) into a variable that held another field before: %v", c.Text, err)
+	}
 	return nil
 }
 
